@@ -5,6 +5,7 @@ mod util;
 mod c14;
 mod geom;
 mod c12;
+mod c18;
 
 use std::path::PathBuf;
 use util::Args;
@@ -42,6 +43,7 @@ fn main() {
         "c10" => geom::main_c10(&args),
         "c11" => geom::main_c11(&args),
         "c12" => c12::main(&args),
+        "c18" => c18::main(&args),
         p => { eprintln!("unknown property {}", p); std::process::exit(2); }
     };
     if let Err(e) = r {
